@@ -19,11 +19,13 @@ type node struct {
 	keys  []string
 	vals  []*node
 	str   string
+	raw   string // a string value exactly as written (with its quotes)
 	num   string
 	items []*node
 }
 
-func parseNode(dec *json.Decoder) (*node, error) {
+func parseNode(dec *json.Decoder, content []byte) (*node, error) {
+	before := dec.InputOffset()
 	tok, err := dec.Token()
 	if err != nil {
 		return nil, err
@@ -42,7 +44,7 @@ func parseNode(dec *json.Decoder) (*node, error) {
 				if !ok {
 					return nil, fmt.Errorf("non-string key")
 				}
-				v, err := parseNode(dec)
+				v, err := parseNode(dec, content)
 				if err != nil {
 					return nil, err
 				}
@@ -56,7 +58,7 @@ func parseNode(dec *json.Decoder) (*node, error) {
 		case '[':
 			n := &node{kind: 'a'}
 			for dec.More() {
-				v, err := parseNode(dec)
+				v, err := parseNode(dec, content)
 				if err != nil {
 					return nil, err
 				}
@@ -69,7 +71,11 @@ func parseNode(dec *json.Decoder) (*node, error) {
 		}
 		return nil, fmt.Errorf("unexpected delimiter")
 	case string:
-		return &node{kind: 's', str: t}, nil
+		raw := ""
+		if after := dec.InputOffset(); before >= 0 && after <= int64(len(content)) && before <= after {
+			raw = strings.TrimLeft(string(content[before:after]), " \t\r\n,:")
+		}
+		return &node{kind: 's', str: t, raw: raw}, nil
 	case json.Number:
 		return &node{kind: 'n', num: string(t)}, nil
 	case bool:
@@ -171,7 +177,7 @@ func amountOf(n *node, limitInt64 bool) (uint64, *Verdict) {
 func StrictFAT2(content []byte, knownTicker func(string) bool) Verdict {
 	dec := json.NewDecoder(bytes.NewReader(content))
 	dec.UseNumber()
-	root, err := parseNode(dec)
+	root, err := parseNode(dec, content)
 	if err != nil {
 		return reject("not valid JSON: "+err.Error(), false)
 	}
@@ -233,6 +239,9 @@ func StrictFAT2(content []byte, knownTicker func(string) bool) Verdict {
 		if !knownTicker(ty.str) {
 			return reject("unknown ticker "+ty.str, true)
 		}
+		if ty.raw != `"`+ty.str+`"` {
+			return reject("unknown ticker spelling "+ty.raw+" (a ticker is one of the listed names, written literally)", true)
+		}
 		st.Type = ty.str
 		xf, cv := t.get("transfers"), t.get("conversion")
 		// canonical form carries exactly one of the two MEMBERS; an empty or null member is still a member
@@ -250,6 +259,9 @@ func StrictFAT2(content []byte, knownTicker func(string) bool) Verdict {
 			}
 			if !knownTicker(cv.str) {
 				return reject("unknown ticker "+cv.str, true)
+			}
+			if cv.raw != `"`+cv.str+`"` {
+				return reject("unknown ticker spelling "+cv.raw+" (a ticker is one of the listed names, written literally)", true)
 			}
 			st.Conv = cv.str
 		} else {
